@@ -5,3 +5,5 @@ import GPy.C16.Props
 import GPy.C05.Props
 import GPy.C19.Props
 import GPy.C03.Props
+import GPy.C20.Props
+import GPy.C06.Props
